@@ -10,6 +10,7 @@ import random
 import numpy as np
 
 from harness import tlc
+from harness.util import Hang, time_limit
 
 
 def limb(v):
@@ -34,9 +35,14 @@ def stream_for(seed, high, need):
             raise tlc.MachineryFailure("numpy stream does not reach %d distinct values" % need)
 
 
+HANGS = [0]
+
+
 def record(sc):
     """Execute one scenario against the real code and return its trace."""
     from elfi.utils import get_sub_seed
+    if HANGS[0] >= 3:      # the code under test loops; enough evidence, do not burn the budget
+        return None
     seed, high = sc["seed"], sc["high"]
     calls = []
     max_idx = max([c[0] for c in sc["calls"] if 0 <= c[0] < high] + [0])
@@ -45,9 +51,14 @@ def record(sc):
         cache = {}
         for idx, uc in sc["calls"]:
             try:
-                v = get_sub_seed(seed, idx, high=high, cache=cache if uc else None)
+                with time_limit(2):
+                    v = get_sub_seed(seed, idx, high=high, cache=cache if uc else None)
                 calls.append(dict(idx=idx, uc=bool(uc), res="val", val=limb(v),
                                   nseen=len(cache.get("seen", ())) if uc else 0))
+            except Hang:         # neither a value nor a rejection
+                calls.append(dict(idx=idx, uc=bool(uc), res="hang", val=[-1, 0], nseen=0))
+                HANGS[0] += 1
+                break
             except Exception as ex:  # a rejection of the call, judged by the trace spec
                 calls.append(dict(idx=idx, uc=bool(uc), res="raise", val=[0, 0], nseen=0, exc=type(ex).__name__))
     else:
@@ -64,7 +75,8 @@ def record(sc):
             net = nx.DiGraph()
             net.add_node("_random_state")
             try:
-                RandomStateLoader.load(ctx, net, idx)
+                with time_limit(5):
+                    RandomStateLoader.load(ctx, net, idx)
                 rs = net.nodes["_random_state"]["output"]
                 st = rs.get_state()
                 v = -1
@@ -113,6 +125,8 @@ def scenarios(ctx):
 
 def check_scenarios(ctx, scs):
     traces = [record(sc) for sc in scs]
+    scs = [sc for sc, tr in zip(scs, traces) if tr is not None]
+    traces = [tr for tr in traces if tr is not None]
     verdicts = ctx.validate("SubSeed_Trace", traces, chunk=4000)
     for sc, tr, v in zip(scs, traces, verdicts):
         hist = tuple((c[0], c[1]) for c in sc["calls"])
@@ -144,6 +158,8 @@ def run(ctx):
     ctx.exhaustive = True
     ctx.notes.append("%d exhaustive small-high histories + %d random/loader histories" % (n_small, len(scs) - n_small))
     for i in (0, n_small // 2, n_small + 1, len(scs) - 1):
+        if i >= len(traces):
+            continue
         ctx.sample(dict(scenario=scs[i], trace=dict(high=traces[i]["high"], stream=traces[i]["stream"][:8], calls=traces[i]["calls"])))
 
 
